@@ -100,3 +100,14 @@ Definition ex_scalars_chacha_ticket : scalars := {|
   record_size_limit := Some 16385; dc_valid_time := 604800; minKeySize := 1023; maxKeySize := 8193;
   dhParams := None; defaultCurve := VStr "secp256r1"; use_heartbeat_extension := VBool true;
   heartbeat_response_callback := false |}.
+
+(* TLS 1.3 only: minVersion = (3,4) and nothing else changed *)
+Definition ex_scalars_tls13only : scalars := {|
+  minVersion := (3, 4); maxVersion := (3, 4);
+  useExtendedMasterSecret := VBool true; requireExtendedMasterSecret := VBool false;
+  useExperimentalTackExtension := VBool false; sendFallbackSCSV := VBool false;
+  useEncryptThenMAC := VBool true; usePaddingExtension := VBool true; padding_cb := false;
+  ticketCipher := VStr "aes256gcm"; ticketLifetime := 86400; max_early_data := 16400; ticket_count := 2;
+  record_size_limit := Some 16385; dc_valid_time := 604800; minKeySize := 1023; maxKeySize := 8193;
+  dhParams := None; defaultCurve := VStr "secp256r1"; use_heartbeat_extension := VBool true;
+  heartbeat_response_callback := false |}.
